@@ -219,7 +219,11 @@ impl<'a> Interp<'a> {
             b.build()
         });
         match built {
-            Ok(Ok(p)) => it.pool = Some(p),
+            Ok(Ok(p)) => {
+                let probe = p.clone();
+                *vcore::sched::lock(&it.world.lock_probe) = Some(Box::new(move || probe.verif_slots_locked()));
+                it.pool = Some(p)
+            }
             Ok(Err(e)) => it.fail("build-failed", format!("{:?}", e)),
             Err(p) => it.fail("build-panicked", format!("{:?}", p)),
         }
@@ -1349,6 +1353,7 @@ impl<'a> Interp<'a> {
             return;
         }
         if let Some(p) = self.pool.take() {
+            *vcore::sched::lock(&self.world.lock_probe) = None;
             let op = self.new_op(OpKind::DropPool);
             self.world.w().pool_dead = true;
             let r = self.sched.run_inline(op, move || drop(p));
@@ -1957,6 +1962,7 @@ impl<'a> Interp<'a> {
             let _ = self.sched.resume(p.worker, None);
         }
         let op = self.new_op(OpKind::Final);
+        *vcore::sched::lock(&self.world.lock_probe) = None;
         self.world.w().probe_mode = true;
         let gets = std::mem::take(&mut self.gets);
         let held = std::mem::take(&mut self.held);
